@@ -346,3 +346,6 @@ MANIFEST_TEXT['C04'] = dict(
     level_text='PARTIAL: context agreement, import/export closure and identifier paste-site safety only; validity/loadability of the generated text is outside reach of the technique.',
     level_note='Trusted: CrossHair/z3, Jinja2 AST of the template. The template layer, CPython and pysnmp are outside.')
 _finalise()
+PROPS['C07']['modules'] = ['harness.hcompile', 'harness.c07_semantic']
+PROPS['C07']['files'] = COMPILE_FILES + ['pysmi/codegen/symtable.py', 'pysmi/codegen/intermediate.py', 'pysmi/parser/smi.py']
+PROPS['C07']['functions'] += ['SymtableCodeGen.genCode / JsonCodeGen.genCode / PySnmpCodeGen.genCode on modules with semantic defects (error type)']
